@@ -160,6 +160,7 @@ struct WkdRun {
     // C12: if the key lists an element for a slot the accumulated pattern says is hidden, show that the slot can be filled:
     // qualify it with a value there and open a ciphertext in which that slot is set.
     void demonstrate_fillable_hidden_slot(KeyM& k, const std::string& what) {
+        if (k.rho.is_zero()) return;   // scripted randomness 0: the key is the bare master secret and opens everything (exempt from negative oracles)
         int l = R.jv_wk_sk_l(k.sk);
         for (int i = 0; i < l; i++) {
             uint32_t idx = R.jv_wk_sk_bidx(k.sk, i);
@@ -515,7 +516,7 @@ struct WkdRun {
     void op_tamperct(const Op& op) {
         if (cts.empty()) return; CtM& c0 = cts[(size_t) op.arg(0) % cts.size()]; if (c0.tainted || c0.degenerate) return;
         // find a key that opens it (or use the master key)
-        KeyM* opener = nullptr; for (auto& k : keys) if (!k.tainted && exps_equal(exps_of_pattern(k.pat), c0.exps)) { opener = &k; break; }
+        KeyM* opener = nullptr; for (auto& k : keys) if (!k.tainted && !k.rho.is_zero() && exps_equal(exps_of_pattern(k.pat), c0.exps)) { opener = &k; break; }   // a key with scripted randomness 0 is the bare master secret: it does not read C (degenerate-randomness exemption, DESIGN 11/FA3)
         Buf ct = c0.ct; int f = (int) op.arg(1) % 3; const char* fn[] = {"A", "B", "C"};
         if (f == 0) { GTv a = w.field<GTv>(JV_OK_WK_CT, ct, JV_F_CT_A); w.setfield(JV_OK_WK_CT, ct, JV_F_CT_A, 0, w.gtmul(a, sys.pairing)); }
         else if (f == 1) { G2v b = w.field<G2v>(JV_OK_WK_CT, ct, JV_F_CT_B); w.setfield(JV_OK_WK_CT, ct, JV_F_CT_B, 0, w.g2add(b, sys.g)); }
